@@ -175,6 +175,12 @@ func dataflowCase(c *Ctx, focus string) {
 			cfg.FCfg.MaxChunks = 9 + c.Plan.Draw(4) // cross the decimal-width boundary of chunk names
 		}
 	}
+	if !AdvOn && c.Plan.Draw(10) == 0 {
+		// chunk counts across the decimal-width boundary: the join must still get
+		// the chunk outputs complete and in chunk order
+		cfg.FCfg.MaxChunks = 9 + c.Plan.Draw(5)
+		c.Res.Probes["many-chunks-cases"]++
+	}
 	cfg.Flags = append(baseFlags(c.Plan), "--vdrmode=disable", "--strict=error")
 	swarmSched(c.Plan, cfg)
 	r := c.RunOnce(cfg, nil)
